@@ -20,7 +20,11 @@ KW_MIXED = (4.0, 0.5, 2.0, 3.0)
 
 def configs(tier):
     fams = {"ident2": [[0.0, 0.0], [1.0, -1.0]], "ident3": [[0.0, 0.0, 0.0]], "lin2": [[0.1, 0.1]], "lin3": [[0.1, 0.1, 0.1]],
-            "sepquad": [[0.6, -0.3]], "coupled": [[0.1, 0.1]], "trig": [[0.1, 0.1]], "lin_wide": [[0.1, 0.1, 0.1]]}
+            "sepquad": [[0.6, -0.3]], "coupled": [[0.1, 0.1]], "trig": [[0.1, 0.1]], "lin_wide": [[0.1, 0.1, 0.1]],
+            "posq": [[0.3, 0.2]]}
+    # a start point that already matches the targets (a call that has nothing to do)
+    fams["lin2"] = fams["lin2"] + [list(O.FAMILIES["lin2"]["ksol"])]
+    fams["coupled"] = fams["coupled"] + [list(O.FAMILIES["coupled"]["ksol"])]
     if tier == "thorough":
         fams.update({"lin_tall": [[0.1, 0.1]], "lin4x5": [[0.1, 0.1, 0.1, 0.1]], "quad3": [[0.6, -0.3, 0.4]], "bump": [[0.5, 0.5]]})
     for fam, sts in fams.items():
@@ -46,6 +50,11 @@ def configs(tier):
                                         ("step_dt_tag", (), (), {"disable_target": ["t0"]})]
                             if nk > 1 and nt > 1:
                                 dis += [("dvdt", (1,), (1,), {}), ("step_both", (), (), {"disable_vary": ["v1"], "disable_target": [0]})]
+                            if lname != "none":
+                                # a query first: the limits of a rescaled view of the merit function are asked for
+                                dis += [("pre_view", (), (), {})]
+                            if fam == "posq":
+                                dis += [("optlog_dt", (), (0,), {}), ("optlog_step_dt", (), (), {"disable_target": [1]})]
                             if nk > 1:
                                 # a call sequence: steps, then knob 0 is disabled and re-tuned by hand, then the call under test
                                 dis += [("seq_tune", (), (), {})]
@@ -68,6 +77,12 @@ def configs(tier):
                                                 "nsm": 6, "names": (lname, mname, dname)}
                                         if dname == "seq_tune":
                                             spec["pre_seq"] = True
+                                        if dname == "pre_view":
+                                            spec["pre_view"] = True
+                                        if dname.startswith("optlog"):
+                                            if tshift < 0:
+                                                continue      # optimize_log needs positive target values
+                                            spec["optlog"] = (0, 1)
                                         if dname.startswith("prefix"):
                                             spec["knob_names"] = ["k1", "k10", "k2", "k3"][:nk]
                                             spec["vary_tags"] = ["v1", "v10", "v2", "v3"][:nk]
@@ -123,6 +138,11 @@ def run_case(spec):
         if p.limits is not None and not (p.limits[0][0] <= v <= p.limits[0][1]):
             v = 0.5 * (p.limits[0][0] + p.limits[0][1])
         p.knobs[p.kn[0]] = v
+    if spec.get("pre_view"):
+        try:
+            p.opt.get_merit_function(rescale_x=(0, 1)).get_x_limits()
+        except Exception:  # noqa
+            pass
     vflags0, tflags0 = p.vary_flags(), p.target_flags()
     k_before = p.knob_values()
     nrows0 = len(p.log_rows())
